@@ -320,7 +320,10 @@ impl Ctx {
             let _ = w.write_all(&idx.to_le_bytes());
             let _ = w.write_all(&tx1.get().to_le_bytes());
         }
-        if self.det_checked < self.det_limit {
+        // (a leaf that already raised a violation keeps its verdict: a library that hands out
+        // uninitialised memory is nondeterministic by itself and must not be reported as a
+        // machinery error)
+        if self.det_checked < self.det_limit && self.viol_total == before {
             // determinism discipline: same leaf twice, identical transcript
             self.det_checked += 1;
             self.shadow = true;
